@@ -29,6 +29,7 @@ P6 = [(None, 'm'), (None, 's'), ('ir', 's'), ('tr', 't2'), ('ar', 's'),
       ('kr', 't2')]
 P8 = P6 + [('ir', 't2'), ('ar', 't3')]
 PREP = [(None, 'm'), ('ar', 's'), ('ir', 't2'), (None, 's')]
+FALSY = {'z': 0, 'zf': 0.0, 'F': False}
 
 
 # --------------------------------------------------------------------------
@@ -38,7 +39,9 @@ PREP = [(None, 'm'), ('ar', 's'), ('ir', 't2'), (None, 's')]
 def mk_fn(fi, names, combos, rates=None, prepend=0, wraps=None):
     """combos: [(ann, default kind)] per parameter; default kinds: 'm' no
     default (turned into '=None' when Python syntax forbids it), 'n' =None,
-    's' scalar, 't<k>' tuple of k.  Values are tagged by function/position."""
+    's' scalar, 't<k>' tuple of k, 'z'/'zf'/'F' the explicit falsy defaults
+    0 / 0.0 / False, 'tz' the tuple (0, x).  Other values are tagged by
+    function/position."""
     params = []
     all_m = True
     for i, (ann, dk) in enumerate(combos):
@@ -51,6 +54,10 @@ def mk_fn(fi, names, combos, rates=None, prepend=0, wraps=None):
             d = dk
         elif dk == 's':
             d = base + 0.5
+        elif dk in FALSY:
+            d = FALSY[dk]
+        elif dk == 'tz':
+            d = [0, base + 0.5]
         else:
             d = [float(base + 1 + j) for j in range(int(dk[1:]))]
         params.append([names[i], ann, d])
@@ -235,7 +242,16 @@ def fam_variants():
 
 
 def fam_meta():
-    per = [(a, k) for a in ANN for k in ('m', 'n', 's')]
+    """spec defaults apply to missing / =None defaults only: every explicit
+    default - the falsy ones 0, 0.0, False and a tuple with a zero included -
+    must survive a (non-zero) spec default for its name, in every group."""
+    per = [(a, k) for a in ANN
+           for k in ('m', 'n', 's', 'z', 'zf', 'F', 'tz')]
+    inners = [None,
+              ([(None, 'm'), ('ir', 'n')], []),
+              ([(None, 'm'), ('ir', 'n')], ['x']),
+              ([(None, 'z'), ('ir', 'zf')], ['w', 'x']),
+              ([('tr', 'F'), ('ar', 'tz')], ['w', 'x'])]
 
     def prefixes():
         for n in (1, 2):
@@ -251,12 +267,11 @@ def fam_meta():
                     ([names] if n == 2 else []) + [['zz']] + \
                     ([['a'] + names] if pre else [])
                 full = [(None, 'm')] * pre + combo
-                for wrap in ((0, 1, 2) if not pre else (0,)):
+                for inner in (inners if not pre else inners[:1]):
                     wraps = [{'pos': 0, 'fn': mk_fn(
-                        1, WRAP_NAMES[0], [(None, 'm'), ('ir', 'n')])}] \
-                        if wrap else []
+                        1, WRAP_NAMES[0], inner[0])}] if inner else []
                     for sub in subsets:
-                        keys = list(sub) + (['x'] if wrap == 2 else [])
+                        keys = list(sub) + (inner[1] if inner else [])
                         specs = {k: 2048.0 + 16 * j + 0.25
                                  for j, k in enumerate(keys)}
                         fn = mk_fn(0, OUTER_NAMES, full, prepend=pre,
@@ -328,8 +343,8 @@ def fam_big(ns):
 
 FAMILIES = {
     'sig<=2 full alphabets, every rates list':
-        lambda: [fam_sig(n, ('m', 's', 't1', 't2', 't3'), rates_all)
-                 for n in (0, 1, 2)],
+        lambda: [fam_sig(n, ('m', 's', 'z', 'F', 't1', 't2', 't3'),
+                         rates_all) for n in (0, 1, 2)],
     'sig3 reduced defaults, <=1 rates entry':
         lambda: [fam_sig(3, ('m', 's', 't2'), rates_single)],
     'sig3 every rates list':
@@ -355,7 +370,7 @@ QUICK = [('sig<=2 full alphabets, every rates list', 64),
          ('prepend 1-2 of <=3 parameters', 32),
          ('wrap one sub-function (6 kinds/param)', 64),
          ('wrap two sub-functions, sibling/nested', 16),
-         ('variants', 16), ('metadata spec defaults', 16),
+         ('variants', 16), ('metadata spec defaults', 64),
          ('call mapping', 8), ('parametric 16/17 parameters', 16)]
 THOROUGH = [('sig<=2 full alphabets, every rates list', 64),
             ('sig3 every rates list', 512),      # contains the quick sig3
@@ -363,7 +378,7 @@ THOROUGH = [('sig<=2 full alphabets, every rates list', 64),
             ('prepend 1-2 of <=4 parameters', 128),
             ('wrap one sub-function (8 kinds/param)', 128),
             ('wrap two sub-functions, sibling/nested (8 kinds)', 32),
-            ('variants', 16), ('metadata spec defaults', 16),
+            ('variants', 16), ('metadata spec defaults', 64),
             ('call mapping', 8), ('parametric 15..40 parameters', 32)]
 
 
@@ -708,6 +723,7 @@ def main(ctx):
                                       if n.startswith('parametric')]
     ctx.extra['alphabets'] = {
         'annotation': ['none', 'ir', 'tr', 'ar', 'kr'],
-        'default': ['missing', '=None', 'scalar', 'tuple of 1/2/3'],
+        'default': ['missing', '=None', 'scalar', 'tuple of 1/2/3',
+                    'explicit falsy: 0, 0.0, False, (0, x)'],
         'rates entry': ['absent', None, 'ir', 'tr', 'ar', 'kr', 0.25,
                         [0.25, 0.5]]}
